@@ -486,3 +486,7 @@ PROPS["C11"]["level_text"] += " The supporting window operations are carried as 
 # DESIGN §11) are reported under C13 as well, so that breaking one of them is a C13 alarm too.
 PROPS["C13"]["verus"].append({"unit": U4, "fns": ["FailureDetector::update_node_liveness", "FailureDetector::garbage_collect"]})
 PROPS["C13"]["level_text"] += " The detector clauses the step proof relies on are carried as C13 obligations on the real detector (U4): update_node_liveness(id) leaves id in exactly one of live / dead and nobody else's membership changes; garbage_collect leaves the live set untouched and only removes members that were dead."
+# C14's "applied after wiping the receiver's copy" is NodeState::reset_node's own postcondition (apply_delta sees
+# only its contract): reported under C14 as well, with the receiver-side entry point ClusterState::apply_delta.
+PROPS["C14"]["verus"].append({"unit": U1, "fns": ["NodeState::reset_node", "ClusterState::apply_delta"]})
+PROPS["C14"]["level_text"] += " The wipe itself is carried as a C14 obligation too: NodeState::reset_node leaves no entry, max version 0 and exactly the announced GC watermark (NodeState::apply_delta is checked against that contract, not its body), and ClusterState::apply_delta routes every member delta through NodeState::apply_delta."
